@@ -17,18 +17,25 @@ func New(config ...Config) fiber.Handler {
 			return c.Next()
 		}
 
-		// Decrypt request cookies
-		c.Request().Header.VisitAllCookie(func(key, value []byte) {
+		// Decrypt request cookies. Cookies are rewritten by name, which only reaches the first
+		// cookie of that name, so work on a snapshot of the names and keep one cookie per name.
+		var names []string
+		c.Request().Header.VisitAllCookie(func(key, _ []byte) {
 			keyString := string(key)
-			if !isDisabled(keyString, cfg.Except) {
-				decryptedValue, err := cfg.Decryptor(string(value), cfg.Key)
-				if err != nil {
-					c.Request().Header.SetCookieBytesKV(key, nil)
-				} else {
-					c.Request().Header.SetCookie(string(key), decryptedValue)
-				}
+			if !isDisabled(keyString, cfg.Except) && !isDisabled(keyString, names) {
+				names = append(names, keyString)
 			}
 		})
+		for _, name := range names {
+			value := string(c.Request().Header.Cookie(name))
+			c.Request().Header.DelCookie(name)
+			decryptedValue, err := cfg.Decryptor(value, cfg.Key)
+			if err != nil {
+				c.Request().Header.SetCookie(name, "")
+			} else {
+				c.Request().Header.SetCookie(name, decryptedValue)
+			}
+		}
 
 		// Continue stack
 		err := c.Next()
